@@ -8,7 +8,9 @@
    whether SYN / FIN are acknowledged, SND.NXT - SND.UNA, "the application closed the sending side",
    the highest sequence offset reached.  A wire sequence number is [sq (g_iss g + 1 + k)] for the
    stream offset k ([sq x = x mod 2^32]).  [inv g s] is the sender invariant J1-J3 + timer clauses
-   of DESIGN.md Appendix A.  It does not mention the congestion controller: every theorem holds
+   of DESIGN.md Appendix A + the keep-alive clauses [kinv] (rtte.max_seq_sent stays within the
+   sequence space of this connection's stream; remote_mss >= 48; a listener has no max_seq_sent).
+   It does not mention the congestion controller: every theorem holds
    for NoControl, Reno in any state and any other reported congestion window.
    [ctx_ok]: the ISN is a u32 and the IP MTU is at least 40.  [repr_ok r]: what TcpRepr::parse
    guarantees (u32 sequence numbers, u16 window, window scale <= 14). *)
@@ -16,7 +18,8 @@ From SV Require Import Lib.Base Gen.Consts.
 From SV Require Import Model.Seq32 Model.Assembler Model.TcpBuf Model.TcpTypes Model.Tcp.
 From SV Require Import Proofs.TcpSendBase Proofs.TcpSendInv Proofs.TcpSendAck Proofs.TcpSendProc.
 From SV Require Import Proofs.TcpSendApi Proofs.TcpSendDisp Proofs.TcpSendDisp2 Proofs.TcpSendDisp3.
-From SV Require Import Proofs.TcpSendTrace Proofs.TcpSendProps Proofs.TcpSendReply.
+From SV Require Import Proofs.TcpSendTrace Proofs.TcpSendProps Proofs.TcpSendReply Proofs.TcpSendKa.
+From SV Require Proofs.TcpLiveProofs.
 
 (* ---- the inductive invariant ---- *)
 
@@ -41,7 +44,7 @@ Print Assumptions C05_tx_invariant_preserved.
 Theorem C05_process_preserves : forall cx g s ip r s' reply tags,
   inv g s -> ctx_ok cx -> repr_ok r ->
   tcp_process cx s ip r = Ok (s', reply, tags) ->
-  exists g', inv g' s' /\ ghost_rel g g' /\ learned s r s' /\ proc_ghost cx g s r g'.
+  exists g', inv g' s' /\ ghost_rel g g' /\ learned s r s' /\ proc_ghost cx g s r g' s'.
 Proof. exact process_inv. Qed.
 Print Assumptions C05_process_preserves.
 
@@ -156,6 +159,19 @@ Theorem C05_fin_freezes_stream : forall g g', same_epoch g g' -> g_fin g = true 
   g_fin g' = true /\ g_stream g' = g_stream g.
 Proof. exact fin_freezes_stream. Qed.
 Print Assumptions C05_fin_freezes_stream.
+
+(* the one segment the theorems above exempt (tag 245, keep-alive): it carries a single zero octet
+   at a sequence number BELOW SND.UNA, where the peer has already received stream data - it can
+   never be taken for new data.  Needs tcp-c02's timer invariant (an idle timer in a live state
+   means nothing is in flight), which holds in every reachable state (C02, reachable_inv).
+   Before the fix of D23 (/repo 4d1240b) this was false: see corpus/C05/tcp-c05-stale-max-seq-sent.case *)
+Theorem C05_keep_alive_below_una : forall cx g s e s' p tags,
+  inv g s -> ctx_ok cx -> 52 < cx_ip_mtu cx -> TcpLiveProofs.tcp_live_inv s ->
+  tcp_dispatch cx s e = Ok (s', DSent p, tags) ->
+  In 245 tags ->
+  g_phase g <> PSyn /\ exists u, 0 <= u < g_una g /\ r_seq_number (snd p) = sq (g_iss g + u).
+Proof. exact keep_alive_below_una. Qed.
+Print Assumptions C05_keep_alive_below_una.
 
 Theorem C05_syn_window_unscaled : forall cx g s e s' tags p,
   inv g s -> ctx_ok cx -> tcp_dispatch cx s e = Ok (s', DSent p, tags) -> ~ In 245 tags ->
